@@ -301,7 +301,11 @@ int snoopy_util_file_writeLineToCallerStream (FILE * const stream, char const * 
     lineIov[0].iov_len  = strlen(line);
     lineIov[1].iov_base = "\n";
     lineIov[1].iov_len  = 1;
+    // One record at a time, as when the line still went through the stream: a line longer than PIPE_BUF enters a nearly
+    // full pipe in pieces, and another thread's line must not get in between. Only the stream's LOCK is used.
+    flockfile(stream);
     charCount = snoopy_util_file_writevNoSignal(streamPollFd.fd, lineIov, 2);
+    funlockfile(stream);
 
     return (int) charCount;
 }
